@@ -928,6 +928,9 @@ class Scen:
         self.fs_dirty = True
         self.edit_tok("e_modify", p)
 
+    def do_note(self, s):
+        pass
+
     def do_clearidx(self, s):
         os.unlink(self.repo.index_path())
         self.tok("clearidx")
@@ -1040,8 +1043,8 @@ class Scen:
         wd = {p: (f["kind"], f["cid"]) for p, f in self.snapshot().items()}
 
         def cls_of(p):
-            if I_.get(p) is not None and W_.get(p) is None and T_.get(p) is None:
-                return "hardreset:index-entry-kept:file-already-deleted"
+            if I_.get(p) is not None and W_.get(p) is None and T_.get(p) is None and (via == "reset" or H_.get(p) is not None):
+                return "hardreset:index-entry-kept:file-already-deleted"    # (a deletion is applied, the file is already gone)
             # checkout/switch(force=True) take the changes from HEAD's tree to the target and skip equal entries: a
             # path staged differently from HEAD, or locally modified where HEAD and the target agree, is not reset
             if via != "reset" and (H_.get(p) != I_.get(p) or (H_.get(p) == T_.get(p) and W_.get(p) != T_.get(p))):
@@ -1109,6 +1112,7 @@ class Scen:
             cmd += ["-c", c]
         env = git_env(self.home)
         env.pop("GIT_OPTIONAL_LOCKS", None)           # these commands are meant to write the index
+        env["GIT_AUTHOR_DATE"] = env["GIT_COMMITTER_DATE"] = f"{self.commit_time} +0000"   # (unstage stamps entries with it)
         p = subprocess.run(cmd + list(args), cwd=str(self.root), env=env, stdout=subprocess.PIPE, stderr=subprocess.PIPE)
         if p.returncode not in ok_rc:
             raise core.InfraError(f"C18 harness: git {' '.join(args)} failed: {p.stderr.decode(errors='replace')[:300]}")
@@ -1159,6 +1163,38 @@ class Scen:
             self.head = name
         self.sync_model_index()
         self.sync_model_wd()                         # (git checkout / reset rewrite files too)
+
+    def do_reuc(self, s):
+        """a merge conflict at one path, resolved with git add: git records it in the resolve-undo (REUC) extension."""
+        pb = unhx(s["path"])
+        p = os.fsdecode(pb)
+        self.git("checkout", "-q", "-b", "side")
+        with open(self.full(pb), "wb") as f:
+            f.write(b"side\n")
+        self.git("commit", "-q", "-am", "side")
+        self.git("checkout", "-q", "-")
+        with open(self.full(pb), "wb") as f:
+            f.write(b"ours\n")
+        self.git("commit", "-q", "-am", "ours")
+        self.git("merge", "-q", "side", ok_rc=(0, 1))
+        with open(self.full(pb), "wb") as f:
+            f.write(b"resolved\n")
+        self.fs_dirty = True
+        self.snapshot()
+        # HEAD moved (commit "ours") and a merge is in progress: register HEAD's tree, then let git record the resolution
+        flat = {}
+        for rec in self.git("ls-tree", "-r", "-z", "HEAD").split(b"\0"):
+            if rec:
+                meta, path = rec.split(b"\t", 1)
+                mode, _typ, sha = meta.split(b" ")
+                flat[path] = ({b"100644": "r", b"100755": "x", b"120000": "l"}[mode], self.reg.cid(self.repo.object_store[sha].data))
+        name = f"g{len(self.trees)}"
+        self.trees[name], self.commits[name] = flat, self.repo.refs[b"HEAD"]
+        self.tree_ids[name] = oracle_tree_id({q: (k, self.reg.sha_of(c)) for q, (k, c) in flat.items()})
+        self.tok(f"tree:{name}:" + ",".join(f"{hx(q)}={k}{c}" for q, (k, c) in flat.items()))
+        self.tok(f"head:{name}")
+        self.head = name
+        self.do_git({"args": ["add", "--", p]})
 
     def do_gitobserve(self, s):
         """after a dulwich mutation: what C git makes of the index must be what the model (and dulwich) hold."""
@@ -1272,9 +1308,14 @@ class Scen:
             hidden = {p for p in exp_n.t if p.endswith(b"/") and p[:-1] in idxn}
             if hidden:
                 self.ctx.count(self.stream + ".git-normal-hides-dir-named-like-tracked-file", (self.label, len(self.script)), False)
-            if g != StatusView(exp_n.a, exp_n.d, exp_n.m, exp_n.u, exp_n.t - hidden):
-                self.ctx.oracle_fail(self.stream, self.case(expected=exp_n.show(), git=g.show()),
-                                     "git status (normal mode) disagrees with the three-way comparison", "oracle:git-vs-three-way")
+            want_n = StatusView(exp_n.a, exp_n.d, exp_n.m, exp_n.u, exp_n.t - hidden)
+            if g != want_n:
+                cls = "oracle:git-vs-three-way"
+                if "UNTR" in self.index_extensions() and not g.err and (g.a, g.d, g.m, g.u) == (want_n.a, want_n.d, want_n.m, want_n.u):
+                    # the index still carries an untracked cache written by git BEFORE dulwich changed entries
+                    cls = "git-status-wrong:stale-untracked-cache-written-back"
+                self.ctx.oracle_fail(self.stream, self.case(expected=exp_n.show(), git=g.show(), ext=self.index_extensions()),
+                                     "git status (normal mode) disagrees with the three-way comparison", cls)
         if s.get("expect_clean") and not exp.clean():
             self.ctx.oracle_fail(self.stream, self.case(expected=exp.show()), "status is not clean right after checkout (three-way comparison)")
         return exp, real
@@ -2162,7 +2203,7 @@ def _stream_gitindex(ctx, batch, stream="gitindex"):
             if sc.failed:
                 continue
             if rng.random() < 0.3:            # a resolved merge conflict leaves a resolve-undo (REUC) extension
-                _make_reuc(sc, rng, paths)
+                sc.exec({"op": "reuc", "path": hx(rng.choice(paths))})
             ver = 0
             for step in range(rng.choice([4, 6, 9])):
                 # 1. C git writes the index
@@ -2219,44 +2260,6 @@ def _stream_gitindex(ctx, batch, stream="gitindex"):
             ctx.count(stream, i, True)
         finally:
             batch.add(sc)
-
-
-def _make_reuc(sc, rng, paths):
-    """a merge conflict at one path, resolved with git add: git records it in the resolve-undo (REUC) extension."""
-    p = os.fsdecode(rng.choice(paths))
-    try:
-        sc.git("checkout", "-q", "-b", "side")
-        with open(sc.full(os.fsencode(p)), "wb") as f:
-            f.write(b"side\n")
-        sc.git("commit", "-q", "-am", "side")
-        sc.git("checkout", "-q", "-")
-        with open(sc.full(os.fsencode(p)), "wb") as f:
-            f.write(b"ours\n")
-        sc.git("commit", "-q", "-am", "ours")
-        sc.git("merge", "-q", "side", ok_rc=(0, 1))
-        with open(sc.full(os.fsencode(p)), "wb") as f:
-            f.write(b"resolved\n")
-    except core.InfraError:
-        raise
-    sc.fs_dirty = True
-    sc.snapshot()
-    # HEAD moved (commit "ours") and a merge is in progress: register HEAD's tree, then let git record the resolution
-    out = sc.git("ls-tree", "-r", "-z", "HEAD")
-    flat = {}
-    for rec in out.split(b"\0"):
-        if rec:
-            meta, path = rec.split(b"\t", 1)
-            mode, _typ, sha = meta.split(b" ")
-            content = sc.repo.object_store[sha].data
-            flat[path] = ({b"100644": "r", b"100755": "x", b"120000": "l"}[mode], sc.reg.cid(content))
-    name = f"g{len(sc.trees)}"
-    sc.trees[name], sc.commits[name] = flat, sc.repo.refs[b"HEAD"]
-    sc.tree_ids[name] = oracle_tree_id({q: (k, sc.reg.sha_of(c)) for q, (k, c) in flat.items()})
-    sc.tok(f"tree:{name}:" + ",".join(f"{hx(q)}={k}{c}" for q, (k, c) in flat.items()))
-    sc.tok(f"head:{name}")
-    sc.head = name
-    sc.script.append({"op": "note-reuc", "path": hx(os.fsencode(p))})
-    sc.exec({"op": "git", "args": ["add", "--", p]})
 
 
 def _stream_linkdir(ctx, batch, stream="linkdir"):
